@@ -1314,6 +1314,27 @@ def resugar_or(tree):
     for owner in ast.walk(tree):
         for field, blk in _blocks(owner) if not isinstance(owner, ast.Module) else [("body", owner.body)]:
             for i, st in enumerate(blk):
+                if isinstance(st, ast.If) and len(st.body) == 1 and not st.orelse and isinstance(st.test, ast.UnaryOp) \
+                        and isinstance(st.test.op, ast.Not) and isinstance(st.test.operand, ast.Name) \
+                        and isinstance(st.body[0], ast.Assign) and len(st.body[0].targets) == 1 \
+                        and isinstance(st.body[0].targets[0], ast.Name) and st.body[0].targets[0].id == st.test.operand.id:
+                    # `if not t: t = e`  ->  `t = t or e`
+                    name = st.test.operand.id
+                    first = ast.Name(id=name, ctx=ast.Load())
+                    prev = blk[i - 1] if i > 0 else None
+                    merge = isinstance(prev, ast.Assign) and len(prev.targets) == 1 and isinstance(prev.targets[0], ast.Name) \
+                        and prev.targets[0].id == name and name not in _names_loaded(prev.value)
+                    if merge:
+                        first = prev.value  # `t = a; if not t: t = e`  ->  `t = a or e`
+                    new = ast.Assign(targets=[ast.Name(id=name, ctx=ast.Store())],
+                                     value=ast.BoolOp(op=ast.Or(), values=[first, st.body[0].value]))
+                    ast.copy_location(new, st)
+                    ast.fix_missing_locations(new)
+                    blk[i] = new
+                    if merge:
+                        blk[i - 1] = ast.copy_location(ast.Pass(), prev)
+                    n_done += 1
+                    continue
                 if not (isinstance(st, ast.If) and len(st.body) == 1 and len(st.orelse) == 1):
                     continue
                 test, a, b = st.test, st.body[0], st.orelse[0]
@@ -1331,6 +1352,10 @@ def resugar_or(tree):
                 ast.fix_missing_locations(new)
                 blk[i] = new
                 n_done += 1
+            if n_done and any(isinstance(x, ast.Pass) for x in blk) and len(blk) > 1:
+                kept = [x for x in blk if not isinstance(x, ast.Pass)]
+                if kept:
+                    blk[:] = kept
     return n_done
 
 
